@@ -1,6 +1,7 @@
 package core
 
 import (
+	"bytes"
 	"fmt"
 	"regexp"
 	"sort"
@@ -1189,6 +1190,27 @@ func (r *Rig) connOther(idx int, st *Step, prev *Step) *Drift {
 	return nil
 }
 
+var reSubject = regexp.MustCompile(`(?m)^Subject: ([^\r\n]*)\r?$`)
+var reGluonIDLine = regexp.MustCompile(`(?m)^X-Pm-Gluon-Id: [0-9a-fA-F-]{36}\r\n`)
+var reSize = regexp.MustCompile(`RFC822\.SIZE (\d+)`)
+
+// literalOf: the literal the harness connector holds for model message m (set when the message came through the connector).
+func (r *Rig) literalOf(m string) ([]byte, bool) {
+	if rid, ok := r.remote[m]; ok {
+		if vm := r.conn.Messages[rid]; vm != nil && len(vm.Literal) > 0 {
+			return vm.Literal, true
+		}
+	}
+	return nil, false
+}
+
+func (r *Rig) bytesFinding(box string, uid int, m, what string, lit []byte) {
+	if len(lit) > 400 {
+		lit = lit[:400]
+	}
+	r.find("C03", "C03/bytes", fmt.Sprintf("mailbox %s, UID %d (message %s): BODY[] %s: %q", box, uid, m, what, lit), 0)
+}
+
 var reGluonID = regexp.MustCompile(`(?i)X-Pm-Gluon-Id: ([0-9a-fA-F-]+)`)
 
 // internalID finds gluon's internal id of model message m through a fresh session (it is in the id header).
@@ -1293,7 +1315,7 @@ func (r *Rig) oracleViewOn(oc *wire.Client, box string) ([]Entry, int, error) {
 			fmt.Sscanf(l.Text[i:], "[UIDNEXT %d]", &uidnext)
 		}
 	}
-	res = oc.Cmd("FETCH 1:* (UID FLAGS BODY.PEEK[HEADER.FIELDS (SUBJECT)])")
+	res = oc.Cmd("FETCH 1:* (UID FLAGS RFC822.SIZE BODY.PEEK[])")
 	var out []Entry
 	var seqOf []int
 	if res.Status == "OK" {
@@ -1306,7 +1328,25 @@ func (r *Rig) oracleViewOn(oc *wire.Client, box string) ([]Entry, int, error) {
 			n := le[0].N
 			seqOf = append(seqOf, n)
 			for _, lit := range l.Lits {
-				e.M = strings.TrimSpace(strings.TrimPrefix(strings.TrimSpace(string(lit)), "Subject:"))
+				// the message's identity is its Subject; its bytes must be the literal of that message with exactly one id
+				// header line of gluon in front of the first header field (C03: "... and their bytes"), RFC822.SIZE their length
+				if m := reSubject.FindSubmatch(lit); m != nil {
+					e.M = strings.TrimSpace(string(m[1]))
+				}
+				plain := reGluonIDLine.ReplaceAll(lit, nil)
+				want := r.lit(e.M)
+				if w, ok := r.literalOf(e.M); ok {
+					want = w
+				}
+				switch {
+				case len(reGluonIDLine.FindAll(lit, -1)) != 1 || !reGluonIDLine.Match(lit[:min(len(lit), 80)]):
+					r.bytesFinding(box, e.UID, e.M, "does not start with exactly one id header line", lit)
+				case !bytes.Equal(plain, want):
+					r.bytesFinding(box, e.UID, e.M, "is not the literal that was handed in", lit)
+				}
+				if mm := reSize.FindStringSubmatch(l.Text); mm != nil && mm[1] != strconv.Itoa(len(lit)) {
+					r.bytesFinding(box, e.UID, e.M, "RFC822.SIZE "+mm[1]+" differs from the length of BODY[]", lit)
+				}
 			}
 			out = append(out, e)
 		}
